@@ -157,43 +157,9 @@ def check_diffbase_guard(ctx: Ctx) -> None:
     stores = [n for n in g.nodes if n.kind == 'stmt' and any(
         method_call(c, 'store') is not None and 'diffbase_storage' in src(c.func) for c in calls_in(n.stmt))]
     ctx.require_sites('R3.3', 'process_changing_cause: diff-base store', len(stores), 1, f.loc())
-    for sn in stores:
-        conds = dominating_conditions(g, sn)
-        ok = False
-        why = ''
-        for t, o, bn in conds:
-            if o is True and isinstance(t, ast.BoolOp) and isinstance(t.op, ast.Or) and all(isinstance(v, ast.Name) for v in t.values) and len(t.values) == 2:
-                kinds = []
-                for nm in t.values:
-                    assigns = [a for a in walk_no_defs(f.node) if isinstance(a, (ast.Assign, ast.AnnAssign))
-                               and any(isinstance(x, ast.Name) and x.id == nm.id for x in (a.targets if isinstance(a, ast.Assign) else [a.target]))]
-                    vals = [a.value for a in assigns if a.value is not None]
-                    if all((isinstance(v, ast.Constant) and v.value is None) or (isinstance(v, ast.Attribute) and v.attr == 'done') for v in vals) \
-                            and any(isinstance(v, ast.Attribute) and v.attr == 'done' for v in vals):
-                        kinds.append('done')
-                    elif all(isinstance(v, ast.Constant) and v.value in (None, True) for v in vals) and any(isinstance(v, ast.Constant) and v.value is True for v in vals):
-                        # `skip = True` must sit on the branch where no handlers were selected
-                        trues = [a for a in assigns if isinstance(a.value, ast.Constant) and a.value.value is True]
-                        okskip = True
-                        for a in trues:
-                            an = [n for n in g.nodes if n.stmt is a]
-                            for x in an:
-                                cs = dominating_conditions(g, x)
-                                if not any(cond_implies(tt, oo, lambda e, oo2: isinstance(e, ast.Name) and 'handlers' in e.id and oo2 is False) for tt, oo, _ in cs):
-                                    okskip = False
-                        kinds.append('skip' if okskip else 'skip-unguarded')
-                    else:
-                        kinds.append('?')
-                ok = sorted(kinds) == ['done', 'skip']
-                why = str(kinds)
-        ctx.ob('R3.3', 'process_changing_cause: the last-handled state is stored only under `state.done` or "no handlers selected"', ok,
-               loc=f.loc(sn.stmt), construct=construct(f, 'guard:diffbase store under done-or-skip'), detail=why)
-        # and `done` is read after the outcomes of this cycle were merged into the state
-        execs = g.call_nodes('execution.execute_handlers_once')
-        merges = [n for n in g.nodes if n.kind == 'stmt' and any(method_call(c, 'with_outcomes') is not None for c in calls_in(n.stmt))]
-        dones = [n for n in g.nodes if n.kind == 'stmt' and isinstance(n.stmt, ast.Assign) and isinstance(n.stmt.value, ast.Attribute) and n.stmt.value.attr == 'done']
-        ctx.ob('R3.3', 'process_changing_cause: `done` is taken from the state after this cycle\'s outcomes were merged', bool(dones) and bool(merges)
-               and not g.dominated(dones, merges) and not g.dominated(merges, execs), loc=f.loc(), construct=construct(f, 'order:execute<with_outcomes<done'))
+    # The guard itself ("only under state.done, taken after the outcomes were merged, or when no handler was selected") is decided semantically by the closing table
+    # (C02.check_cycle_closing, run by this property as R3.3): it enumerates the paths and needs no particular naming of the flags.  The syntactic version that
+    # stood here (two locals `done`/`skip` in an `or`) reported behaviour-preserving rewrites that drop the flag variables, and was removed.
 
 
 def check_detect_causes(ctx: Ctx) -> None:
